@@ -20,15 +20,20 @@ class Scope:
         self.table: Table | None = None
         self.labels: dict[str, int] = {}
         self.pending: set[str] = set()
+        self.announced: dict[str, int] = {}
 
     def declare(self, symbol: str) -> None:
         """Announces a symbol this scope defines later (label, `=` symbol, late macro argument).
         Until it has its value, lookups must not fall through to an outer symbol of the same name."""
         self.pending.add(symbol)
+        self.announced[symbol] = self.announced.get(symbol, 0) + 1
 
     def add_label(self, label: str, value: Address) -> None:
         self.labels[label] = value.logical_value
-        self.pending.discard(label)
+        # a name the scope defines once more further down stays pending: the value that counts is the last one.
+        self.announced[label] = self.announced.get(label, 0) - 1
+        if self.announced[label] <= 0:
+            self.pending.discard(label)
         self.add_symbol(label, value.logical_value)
 
     def get_labels(self) -> ItemsView[str, int]:
